@@ -17,7 +17,7 @@ from .c03 import overflows
 ID = "C04"
 LEVEL = "exploration"
 RULE = ("Single-section tables in the default body font whose rows have an unambiguous height (calibrated filler, "
-        "every cell well inside a k-line band; unequal column widths and missing (null) cells in 40% of the tables), nrow 2-30, all header / footnote / source reservations, group-key "
+        "every cell well inside a k-line band, set in ordinary words, in wide glyphs (M W m @) or in narrow ones (i l t f); unequal column widths and missing (null) cells in 40% of the tables), nrow 2-30, all header / footnote / source reservations, group-key "
         "sequences with 1-3 levels over a small alphabet (runs of every length, keys may return non-adjacently, '-----' divider runs in 30% of the grouped tables), "
         "plain / page_by (new_page on/off, pageby_row column/first_row) / subline_by. Exhaustive part: all height "
         "vectors in {1,2,3}^n x all group-change patterns of length n (quick: n<=4 complete + every 4th of n=5; thorough: n<=7 complete, 167,961 cases), over a "
@@ -86,7 +86,8 @@ def _case(draw):
                           new_page=new_page, pageby_row=draw(st.sampled_from([None, "column", "first_row"])) if new_page else None,
                           pageby_header=draw(st.sampled_from([None, True, False])), header=header, footnote=fn, source=src,
                           nrow=draw(st.integers(2, 30)), placements=pl, title=draw(st.booleans()),
-                          tall_cols=[draw(st.integers(0, 2)) for _ in range(n)], group_first=draw(st.booleans()))
+                          tall_cols=[draw(st.integers(0, 2)) for _ in range(n)], group_first=draw(st.booleans()),
+                          glyphs=[draw(st.sampled_from(["normal", "wide", "narrow"])) for _ in range(draw(st.integers(1, 3)))] if draw(st.integers(0, 9)) < 4 else None)
     rec["strategy"] = strat
     rec["prefix"] = draw(st.integers(1, n))
     return rec
@@ -107,6 +108,8 @@ CONFIGS = [  # (strategy, header, footnote, source, nrow)
     ("plain", "default", None, None, 3), ("page_by", "multi", "table", "table", 9), ("page_by", "explicit", None, None, 3),
     # two data columns of unequal width (1:3) next to a page_by column that stays in the table; a null cell in the other column
     ("page_by_new_w", "explicit", None, None, 6), ("plain_w", "none", None, None, 5),
+    # multi-line cells set in wide (M W m @) and in narrow (i l t f) glyphs: character-count estimates are far off for these
+    ("plain_wide", "explicit", None, None, 5), ("plain_narrow", "none", None, None, 4),
 ]
 
 
@@ -139,6 +142,10 @@ def exhaustive_case(hv, pattern, cfg):
     wide = strat.endswith("_w")
     if wide:
         strat = strat[:-2]
+    glyphs = None
+    for g in ("wide", "narrow"):
+        if strat.endswith("_" + g):
+            strat, glyphs = strat[: -len(g) - 1], [g]
     if strat.startswith("page_by"):
         groups, levels = [[f"@G0:v{v}" for v in vals]], 1
         new_page = "new" in strat
@@ -149,7 +156,7 @@ def exhaustive_case(hv, pattern, cfg):
     if wide:
         extra = dict(rel_widths=[1, 3], null_cells={f"{i},0" for i in range(0, n, 2)})
     rec = pgen.make_table(list(hv), groups, ndata=2 if wide else 1, subline=subline, page_by_levels=levels, new_page=new_page, pageby_row=pbr,
-                          header=header, footnote=fn, source=src, nrow=nrow, **extra)
+                          header=header, footnote=fn, source=src, nrow=nrow, glyphs=glyphs, **extra)
     rec["strategy"] = strat
     rec["prefix"] = max(1, n - 1) if n < 7 else 0
     return rec
